@@ -4,6 +4,7 @@
 #include <stdio.h>
 #include <stdlib.h>
 #include <vector>
+#include <algorithm>
 #include <string>
 using namespace asl;
 struct Counted { static int live, ctor, dtor; int v; Counted() : v(0) { ctor++; live++; } Counted(int x) : v(x) { ctor++; live++; } Counted(const Counted& o) : v(o.v) { ctor++; live++; } ~Counted() { dtor++; live--; } bool operator==(const Counted& o) const { return v == o.v; } bool operator!=(const Counted& o) const { return v != o.v; } };
@@ -82,6 +83,12 @@ int main(int argc, char** argv)
 		for (int n = 1; n <= 40; n += 3) { Counted::live = Counted::ctor = Counted::dtor = 0; { Array<Counted> a; for (int q = 0; q < n; q++) a << Counted(q); a.reserve(4 * n + 7); a.resize(2 * n); Array<Counted> b; b << Counted(1); b.append(a);
 			if (Counted::live != 2 * n + 1 + 2 * n) { printf("REPRODUCED after reserve / resize / append(array) of %d elements %d are alive, the arrays hold %d\n", n, Counted::live, 4 * n + 1); return 1; } }
 			if (Counted::live != 0 || Counted::ctor != Counted::dtor) { printf("REPRODUCED growth through reserve: %d elements constructed but %d destroyed\n", Counted::ctor, Counted::dtor); return 1; } }
+		// sort(): every permutation of up to 7 distinct values and every sequence over {0,1,2} up to length 7; slice(): every range, independent of the source
+		{ for (int n = 0; n <= 7; n++) { std::vector<int> v(n); for (int i = 0; i < n; i++) v[i] = i; do { Array<int> a; for (int x : v) a << x; a.sort(); for (int i = 0; i < n; i++) if (a[i] != i) { printf("REPRODUCED sort() of a permutation of %d values leaves %d at position %d\n", n, a[i], i); return 1; } } while (std::next_permutation(v.begin(), v.end())); }
+		  for (int n = 0; n <= 7; n++) { int total = 1; for (int i = 0; i < n; i++) total *= 3; for (int code = 0; code < total; code++) { Array<int> a; std::vector<int> v; int c = code; for (int i = 0; i < n; i++, c /= 3) { a << c % 3; v.push_back(c % 3); } a.sort(); std::sort(v.begin(), v.end()); for (int i = 0; i < n; i++) if (a[i] != v[i]) { printf("REPRODUCED sort() with duplicates\n"); return 1; } } }
+		  for (int n = 0; n <= 6; n++) for (int i1 = 0; i1 <= n; i1++) for (int i2 = i1; i2 <= n; i2++) { if (i2 == 0 && n > 0) continue; Array<int> a; for (int q = 0; q < n; q++) a << 10 + q; Array<int> sl = a.slice(i1, i2); int want = i2 - i1;
+			if (sl.length() != want) { printf("REPRODUCED slice(%d,%d) of %d has %d elements\n", i1, i2, n, sl.length()); return 1; } for (int q = 0; q < want; q++) if (sl[q] != 10 + i1 + q) { printf("REPRODUCED slice content\n"); return 1; }
+			a << 99; if (n) a[0] = -1; if (sl.length() != want || (want && i1 == 0 && sl[0] != 10)) { printf("REPRODUCED slice(%d,%d) of a %d-element array changes when the source is changed afterwards\n", i1, i2, n); return 1; } } }
 		printf("OK\n"); return 0;
 	}
 	return 2;
